@@ -479,7 +479,8 @@ class Macro(Composite, StaticNode, ScrapesIO, ABC):
             self.inputs[inp]._value_receiver = self.children[child].inputs[child_inp]
 
         for (child, child_out), out in output_links:
-            self.children[child].outputs[child_out].value_receiver = self.outputs[out]
+            # Likewise: the macro output holds its restored value already
+            self.children[child].outputs[child_out]._value_receiver = self.outputs[out]
 
     @classmethod
     def _extra_info(cls) -> str:
